@@ -22,7 +22,9 @@ func init() {
 			"(7) the Keyring is a copy-on-write value that carries every key: no method writes through its receiver, Clone builds a fresh map filled from the receiver's, Serialize appends a key on every iteration over k.keys and encodes k.rootKey, the active term is only stored behind activeTerm < key.Term (AddKey and DeserializeKeyring), AddKey installs a key only for a term not yet installed; " +
 			"(2b) Zeroize with keysToo is called only by Seal (clones share key values); SealManager.sealAll walks every barrier, its callback never stops the walk and seals each non-nil entry; " +
 			"(4b) aeadForTerm probes and fills the cache under, and builds the AEAD from the key of, its term parameter; Initialize persists the first keyring only behind Initialized() == false; " +
-			"(5b) Core side of the upgrade path: CreateUpgrade/DestroyUpgrade receive the term Rotate returned, behind Rotate's success; checkKeyringUpgrade calls CheckUpgrade again after every installed term; performKeyUpgrades runs checkKeyringUpgrade, ReloadRootKey, ReloadKeyring, reloadShamirKey in this order, each after the previous succeeded.",
+			"(5b) Core side of the upgrade path: CreateUpgrade/DestroyUpgrade receive the term Rotate returned, behind Rotate's success; checkKeyringUpgrade calls CheckUpgrade again after every installed term; performKeyUpgrades runs checkKeyringUpgrade, ReloadRootKey, ReloadKeyring, reloadShamirKey in this order, each after the previous succeeded; CreateUpgrade serializes and encrypts TermKey(term) of the live keyring for its own term parameter; " +
+			"(2c) Core.sealInternalWithOptions: after the core was marked sealed every return lies behind SealManager.sealAll, except the two tabled error legs (preSeal / raft TeardownCluster failed) whose callees cannot fail on the pinned tree; " +
+			"(6b) the sibling rotations have no atomic envelope either (further instances of F6).",
 		NotDecided: "readability of old entries after arbitrary rotate/rekey histories (values/keys); crash at an arbitrary write prefix beyond listing the non-atomic sequences; lock discipline of b.l (conditional locking); namespace barriers' sealing order.",
 		Run:        runC10,
 	})
